@@ -1,6 +1,6 @@
 (** C10 - Interaction-list files replay the event stream and round-trip presence. *)
 From DynVerif Require Import Base Graph Derived Spec Annotate IO.
-From DynVerif.proofs Require Import CoreInv C01Facts QueryFacts LogInv DerivedFacts IOFacts ReplayFacts.
+From DynVerif.proofs Require Import CoreInv C01Facts QueryFacts LogInv DerivedFacts IOFacts ReplayFacts LogRead.
 From Coq Require Import Sorting.Sorted.
 
 (** write_interactions emits exactly the events of stream_interactions(), as rows (u, v, op, t), in
@@ -39,6 +39,38 @@ Theorem C10_minus_presence : forall dir rem h c k tau,
   pres dir rem (h ++ [c]) k tau = pres dir rem h k tau || (peqb (ckey dir c) k && in_span rem tau c).
 Proof. exact CoreInv.pres_snoc. Qed.
 Print Assumptions C10_minus_presence.
+
+(** the reader on ARBITRARY logs: rows of one pair never affect another pair; each pair's timeline is the fold of its own
+    rows ([log_step]: '+' at s adds the instant s, '-' at s extends the latest run through s-1); the reader fails exactly
+    when some pair's own log does ('-' before any '+', or a '+' before the latest run's start) *)
+Theorem C10_reader_per_pair : forall rows g H, g_rem g = true ->
+  parse_interactions_from g rows = RdOk H ->
+  g_dir H = g_dir g /\ forall k, log_fold (aget peqb k (g_edges g)) (rows_of_pair (g_dir g) k rows) = Some (aget peqb k (g_edges H)).
+Proof. exact reader_per_pair. Qed.
+Print Assumptions C10_reader_per_pair.
+Theorem C10_reader_error : forall rows g o, g_rem g = true -> parse_interactions_from g rows = RdErr o ->
+  exists k, log_fold (aget peqb k (g_edges g)) (rows_of_pair (g_dir g) k rows) = None.
+Proof. exact reader_error. Qed.
+Print Assumptions C10_reader_error.
+(** every well-formed log (per pair: chronological, not starting with '-') is read without error into canonical timelines,
+    and each step contributes exactly the instants the statement of C10 says *)
+Theorem C10_wellformed_log : forall dir rows, (forall k, pair_log_ok (rows_of_pair dir k rows)) ->
+  exists H, parse_interactions dir rows = RdOk H /\ g_dir H = dir /\ forall k, ocanon (aget peqb k (g_edges H)).
+Proof. exact reader_total. Qed.
+Print Assumptions C10_wellformed_log.
+Theorem C10_log_step : forall runs op s runs' tau, ocanon runs -> log_step runs op s = Some runs' ->
+  ocanon runs' /\
+  omem tau runs' = omem tau runs ||
+    (if op then (tau =? s)
+     else match runs with Some ((a, b), _) => (b <? s) && (a <=? tau) && (tau <=? s - 1) | None => false end).
+Proof. exact log_step_mem. Qed.
+Print Assumptions C10_log_step.
+(** text level: a rendered row u<d>v<d>op<d>t is read back as that row *)
+Theorem C10_text : forall m d u v op t, ~ rchar m -> ~ rchar d -> m <> d -> is_ws d = false ->
+  m <> 43 -> m <> 45 -> d <> 43 -> d <> 45 ->
+  int_line m (Some d) (render_int_row d (u, v, op, t)) = LRow (u, v, op, t).
+Proof. exact int_line_render. Qed.
+Print Assumptions C10_text.
 
 (** ROUND TRIP -- PARTIAL (finding K-C10-1, consequence of K-C05-1): reading back what was written yields a graph of
     the same class with the same presence relation, for every good graph all of whose runs of two or more instants
